@@ -295,6 +295,14 @@ func runChaos(run *vc.Run, h *chaos.Harness, g *chaos.Gen, repo string, n int) {
 				sig := strings.Join(p.Funcs(), ",") + "|" + res.Outcome
 				run.Distinct(sig)
 				run.Count("programs_"+res.Outcome, 1)
+				run.Count("programs_"+p.Mode+"_"+res.Outcome, 1)
+				if res.Outcome == "rejected" && os.Getenv("VERIF_C12_DEBUG") != "" && len(res.Errors) > 0 {
+					t := res.Errors[0].Text
+					if i := strings.Index(t, "] "); i > 0 {
+						t = t[i+2:]
+					}
+					fmt.Fprintf(os.Stderr, "DEBUGERR %s n=%d %s\n", p.Mode, len(res.Errors), normMsg(t))
+				}
 				if res.Outcome == "rejected" {
 					phase := "execution"
 					for _, e := range res.Errors {
